@@ -121,9 +121,11 @@ def chk (c : Bool) (msg : String) : List String := if c then [] else [msg]
 def oracleS (ds : DS) (flt : Fault) (sender recip : Bytes) (iout : Outcome) (ievs : List Ev) : List String :=
   let isExit := match iout with | .exit _ => true | _ => false
   let g := chk (guardedAny [] ievs) "exec-not-guarded-or-root"
+  -- `C11_child_defers`: exit 0 only for the null recipient, QLX_EXECHARD only when execv failed permanently, else reported `Z`
+  let nullRecip := match lastAt recip with | some j => (recip.take j).isEmpty | none => false
   let e := match iout with
     | .exit c =>
-      chk (c == 0 || (c == QLX_EXECHARD && flt == .execHard) || implReport ds c == some 90) s!"error-exit-{c}-not-deferred" ++
+      chk ((c == 0 && nullRecip) || (c == QLX_EXECHARD && flt == .execHard) || implReport ds c == some 90) s!"error-exit-{c}-not-deferred" ++
       chk (!ievs.any isExecLocal || flt == .execHard || flt == .execSoft) "exit-after-exec"
     | _ => []
   let t := match lastAt recip with
@@ -134,28 +136,32 @@ def oracleS (ds : DS) (flt : Fault) (sender recip : Bytes) (iout : Outcome) (iev
       if loc.isEmpty then chk (iout == .exit 0 && noExec ievs) "null-recipient"
       else if flt == .cdbOpen || flt == .chdir then chk (noExec ievs && isExit) "db-error-not-deferred"
       else
-        -- what the tables say: none = unknown; some none = the lookup must fail
+        -- what the tables say (`specIdentity`: the assignment table, or else the password-file rules); the record is read
+        -- by the spec's own `specRecord`, the argv expected is the spec's `specArgv` (inside `traceOk`/`specChild`)
         let identity (tbl : Option (List Asg)) : List String :=
-          let viaPw : Option (Option Bytes) := match specGetpw ds.env.pw loc with
-            | .out b => some (some b)
-            | .exit _ => some none
-          let want : Option (Option Bytes) :=
+          -- none = the source of the installed cdb is unknown
+          let src : Option (Option (List Asg)) :=
             match ds.env.cdb, tbl with
-            | some _, some tb => (match specLookup tb loc with
-                                 | some r => some (some r)
-                                 | none => viaPw)
-            | none, _ => viaPw
+            | some _, some tb => some (some tb)
+            | none, _ => some none
             | some _, none => none
-          match want with
+          match src with
           | none => []
-          | some none => chk (noExec ievs && (match iout with | .exit c => c != 0 | _ => false)) "lookup-error-not-deferred"
-          | some (some r) =>
-            match parseNughde r with
-            | none => chk (noExec ievs) "exec-with-malformed-record"
-            | some id =>
-              chk (traceOk ds.env id loc dom sender [] ievs) "wrong-identity-or-argv" ++
-              (if id.uid == 0 then chk (noExec ievs && (flt != .none || iout == .exit QLX_ROOT)) "root-not-refused"
-               else if flt == .none then chk (iout == .exec) "assigned-user-not-run" else [])
+          | some t =>
+            let w := specIdentity t ds.env.pw loc
+            -- `C11_identity_faults`: under every fault
+            (match w.record? with
+             | none => chk (noExec ievs && (match iout with | .exit c => c != 0 | _ => false)) "lookup-error-not-deferred"
+             | some r =>
+               match specRecord r with
+               | none => chk (noExec ievs && iout != .exec) "exec-with-malformed-record"
+               | some id =>
+                 chk (traceOk ds.env id loc dom sender [] ievs) "wrong-identity-or-argv" ++
+                 (if id.uid == 0 then chk (noExec ievs && iout != .exec && (flt != .none || iout == .exit QLX_ROOT)) "root-not-refused"
+                  else if flt == .none then chk (iout == .exec) "assigned-user-not-run" else [])) ++
+            -- `C11_identity`: no failing call ⇒ the child does EXACTLY what the tables dictate (every call, in order, and the outcome)
+            (if flt == .none && !loc.contains NUL then chk ((ievs, iout) == specChild ds.env w sender loc dom) "child-differs-from-tables"
+             else [])
         if ds.raw then
           -- a raw (corrupted/truncated) cdb: if reading it fails on the way to this address the delivery must be deferred
           (match nughdeCdb ds.env.cdb loc with
